@@ -180,7 +180,77 @@ theorem shift_equivariance (core : Core) (mode : FhMode) (k : Int) (s : FState) 
     simp only [List.map_cons, run]
     rw [shift_equivariance_step, ih]
 
+/-- A forecaster object that is fitted AGAIN (on any series, with a horizon) and accepts the fit is
+in the state a freshly constructed object reaches by that fit alone: nothing of its earlier history
+(data, cutoff, horizon, window length) survives.  Optional-horizon forecasters, any earlier state. -/
+theorem refit_forgets_history (core : Core) (s : FState) (y : Series) (a : FhArg)
+    (h : (fit core .optional s y (some a)).2 = .done) :
+    fit core .optional s y (some a) = fit core .optional {} y (some a) := by
+  unfold fit at h ⊢
+  cases hy : y.getLast? with
+  | none => simp [hy] at h
+  | some lo =>
+    simp only [hy] at h ⊢
+    cases hc : checkFhArg a with
+    | error e => simp [hc] at h
+    | ok f =>
+      simp only [hc] at h ⊢
+      unfold fitWith at h ⊢
+      simp only [hy, setFh] at h ⊢
+      cases hw : core.fitWl y.length with
+      | error e => simp [hw] at h
+      | ok w =>
+        simp only [hw] at h ⊢
+        by_cases hlen : w > (y.length : Int)
+        · simp [hlen] at h
+        · simp [hlen]
+
+/-- the same for a horizon-dependent forecaster, which accepts a refit only with the horizon it has -/
+theorem refit_forgets_history_required (core : Core) (s : FState) (y : Series) (a : FhArg)
+    (h : (fit core .required s y (some a)).2 = .done) :
+    (fit core .required s y (some a)).1.y = y ∧
+    (fit core .required s y (some a)).1.cutoff = (y.getLast?).map (·.1) ∧
+    (fit core .required s y (some a)).1.fitted = true ∧
+    ((fit core .required s y (some a)).1.fh.map (fun g => (g.vals, g.rel))) =
+      ((fit core .required {} y (some a)).1.fh.map (fun g => (g.vals, g.rel))) := by
+  unfold fit at h ⊢
+  cases hy : y.getLast? with
+  | none => simp [hy] at h
+  | some lo =>
+    simp only [hy] at h ⊢
+    cases hc : checkFhArg a with
+    | error e => simp [hc] at h
+    | ok f =>
+      simp only [hc] at h ⊢
+      unfold fitWith at h ⊢
+      simp only [hy, setFh] at h ⊢
+      by_cases hf : s.fitted = true
+      · simp only [hf, ↓reduceIte] at h ⊢
+        by_cases he : (s.fh.map (fun g => (g.vals, g.rel))) == some (f.vals, f.rel)
+        · simp only [he, ↓reduceIte] at h ⊢
+          cases hw : core.fitWl y.length with
+          | error e => simp [hw] at h
+          | ok w =>
+            simp only [hw] at h ⊢
+            by_cases hlen : w > (y.length : Int)
+            · simp [hlen] at h
+            · simp [hlen]; simpa using he
+        · simp [he] at h
+      · have hf' : s.fitted = false := by simpa using hf
+        simp only [hf', Bool.false_eq_true, ↓reduceIte] at h ⊢
+        cases hw : core.fitWl y.length with
+        | error e => simp [hw] at h
+        | ok w =>
+          simp only [hw] at h ⊢
+          by_cases hlen : w > (y.length : Int)
+          · simp [hlen] at h
+          · simp [hlen]
+
 -- non-vacuity
+example : (fit coreLast .optional ⟨true, [(0, some 1), (1, some 2)], some 1, some ⟨[2], false⟩, 1⟩ [(5, some 7), (6, some 8)]
+    (some ([1, 2], true))).2 = .done := by
+  simp [fit, fitWith, checkFhArg, FH.checkFh, FH.mk, FH.checkValues, sortInts, isortBy, insertBy, setFh, coreLast,
+    Except.map, bind, Except.bind, pure, Except.pure]
 example : OosSteps [1, 3] := ⟨by decide, by decide, by decide⟩
 example : (predict coreLast .optional ⟨true, [(0, some 1), (1, some 2)], some 1, none, 1⟩ (some ([1, 2], true))).2 =
     .series [(2, some 2), (3, some 2)] := by
